@@ -72,10 +72,18 @@ DirSpellings == {"abs", "rel", "dotslash", "trailing", "dotend", "dslash", "updo
 DirSpellingPipelines ==
   { << Step("gen-bundle -dir", {"dir"}, [kind |-> "bundle", sign |-> "none", ver |-> v], [names |-> n, ver |-> v, base |-> b, override |-> "none", dirform |-> f]),
        Step("dump-bundle", {"bundle"}, [kind |-> "text"], [x |-> 0]) >> : n \in {"plain", "nested", "dotfiles", "indexnested"}, v \in BundleVers, b \in {"root", "sub"}, f \in DirSpellings }
+\* the tools' DEFAULTS compose: gen-signedexchange without -version (or with an explicit one) and dump-signedexchange
+\* without -version, the exchange handed over as a file, on standard input, or fetched with -uri from a server that labels it
+\* with the media type of the version it carries (README)
+SxgDefaultPipelines ==
+  { << Step("gen-certurl", {"pemchain", "ocsp"}, [kind |-> "certcbor"], [ncerts |-> 1, curve |-> "p256", sct |-> FALSE]),
+       Step("gen-signedexchange", {"content", "pemchain", "eckey"}, [kind |-> "sxg", ver |-> IF v = "default" THEN "1b3" ELSE v], [genver |-> v, via |-> via, dumpver |-> dv]),
+       Step("dump-signedexchange -verify", {"sxg", "certcbor"}, [kind |-> "text"], [x |-> 0]) >> :
+       v \in SxgVers \cup {"default"}, via \in {"file", "stdin", "http"}, dv \in {"default", "same"} }
 HarPipelines ==
   { << Step("gen-bundle -har", {"har"}, [kind |-> "bundle", sign |-> "none", ver |-> v], [ver |-> v, har |-> h]),
        Step("dump-bundle", {"bundle"}, [kind |-> "text"], [x |-> 0]) >> : v \in BundleVers, h \in {"mixed"} }
-Pipelines == DirPipelines \cup CertPipelines \cup SxgPipelines \cup HarPipelines \cup SxgFlagPipelines \cup DirSpellingPipelines
+Pipelines == DirPipelines \cup CertPipelines \cup SxgPipelines \cup HarPipelines \cup SxgFlagPipelines \cup DirSpellingPipelines \cup SxgDefaultPipelines
 
 \* CLOSURE: whenever a later step consumes the kind an earlier step produced, that artefact is one the
 \* consumer is specified to accept
